@@ -111,8 +111,11 @@ func constructTol(v vec) float64 {
 
 // ---------------------------------------------------------------- pair
 
-func checkPair(p1, p2 orb.Point) error {
-	h12, h21 := geo.DistanceHaversine(p1, p2), geo.DistanceHaversine(p2, p1)
+func checkPair(p1, p2 orb.Point, nz *noiser) error {
+	nz.call()
+	h12 := geo.DistanceHaversine(p1, p2)
+	nz.call()
+	h21 := geo.DistanceHaversine(p2, p1)
 	if !finite(h12, h21) {
 		return fmt.Errorf("DistanceHaversine(%v,%v) = %v, reversed %v: not finite", p1, p2, h12, h21)
 	}
@@ -122,7 +125,10 @@ func checkPair(p1, p2 orb.Point) error {
 	if h12 < 0 || h12 > math.Pi*R*(1+relHalfCircle) {
 		return fmt.Errorf("DistanceHaversine(%v,%v) = %v outside [0, pi*R = %v]", p1, p2, h12, math.Pi*R)
 	}
-	e12, e21 := geo.Distance(p1, p2), geo.Distance(p2, p1)
+	nz.call()
+	e12 := geo.Distance(p1, p2)
+	nz.call()
+	e21 := geo.Distance(p2, p1)
 	if !finite(e12, e21) || e12 < 0 {
 		return fmt.Errorf("Distance(%v,%v) = %v, reversed %v: not a finite non-negative number", p1, p2, e12, e21)
 	}
@@ -143,11 +149,15 @@ func checkPair(p1, p2 orb.Point) error {
 		}
 	}
 	if m <= rad(midMaxSepDeg)*R {
+		nz.call()
 		mid := geo.Midpoint(p1, p2)
 		if !finite(mid[0], mid[1]) {
 			return fmt.Errorf("Midpoint(%v,%v) = %v: not finite", p1, p2, mid)
 		}
-		d1, d2 := geo.DistanceHaversine(p1, mid), geo.DistanceHaversine(mid, p2)
+		nz.call()
+		d1 := geo.DistanceHaversine(p1, mid)
+		nz.call()
+		d2 := geo.DistanceHaversine(mid, p2)
 		if math.Abs(d1-d2) > tolMetres || math.Abs(d1-h12/2) > tolMetres || math.Abs(d2-h12/2) > tolMetres {
 			return fmt.Errorf("Midpoint(%v,%v) = %v: distances to the ends %v and %v, half the whole %v", p1, p2, mid, d1, d2, h12/2)
 		}
@@ -166,13 +176,15 @@ func checkPair(p1, p2 orb.Point) error {
 
 // ---------------------------------------------------------------- destination
 
-func checkDest(p orb.Point, bearing, d float64) error {
+func checkDest(p orb.Point, bearing, d float64, nz *noiser) error {
+	nz.call()
 	q := geo.PointAtBearingAndDistance(p, bearing, d)
 	if !finite(q[0], q[1]) {
 		return fmt.Errorf("PointAtBearingAndDistance(%v,%v,%v) = %v: not finite", p, bearing, d, q)
 	}
 	md := modelDest(p, bearing, d)
 	tol := constructTol(md)
+	nz.call()
 	back := geo.DistanceHaversine(p, q)
 	if !(math.Abs(back-d) <= tol) {
 		return fmt.Errorf("PointAtBearingAndDistance(%v,%v,%v) = %v lies at haversine distance %v (off by %g m)", p, bearing, d, q, back, back-d)
@@ -185,6 +197,7 @@ func checkDest(p orb.Point, bearing, d float64) error {
 	// so that the same metre tolerance applies at every distance; below 1 m the bearing of the rounded
 	// coordinates is not meaningful and the clause is skipped.
 	if d >= 1 {
+		nz.call()
 		bb := geo.Bearing(p, q)
 		if !finite(bb) {
 			return fmt.Errorf("Bearing(%v,%v) = %v: not finite", p, q, bb)
@@ -199,10 +212,11 @@ func checkDest(p orb.Point, bearing, d float64) error {
 
 // ---------------------------------------------------------------- along a line
 
-func checkAlong(ls orb.LineString, d float64) error {
+func checkAlong(ls orb.LineString, d float64, nz *noiser) error {
 	if len(ls) == 0 {
 		return fmt.Errorf("harness: empty line is outside the domain (documented panic)")
 	}
+	nz.call()
 	got, _ := geo.PointAtDistanceAlongLine(ls.Clone(), d)
 	last := ls[len(ls)-1]
 	total := 0.0
@@ -292,10 +306,11 @@ func spelling(verts []orb.Point, rot int, rev, closed bool) orb.Ring {
 // ringMeasures lays the ring spelling out in the given memory layout (a fresh lay-out per
 // call), calls SignedArea and Area, and checks after each call that the whole backing
 // array (spare capacity included) is bit for bit what it was.
-func ringMeasures(r orb.Ring, mode string) (signed, area float64, err error) {
+func ringMeasures(r orb.Ring, mode string, nz *noiser) (signed, area float64, err error) {
 	one := func(name string, f func(orb.Ring) float64) (float64, error) {
 		laid, gd := layOut(r, mode)
 		lr := laid.(orb.Ring)
+		nz.call()
 		v := f(lr)
 		if err := gd.check(name); err != nil {
 			return v, err
@@ -317,22 +332,23 @@ func ringMeasures(r orb.Ring, mode string) (signed, area float64, err error) {
 	return
 }
 
-func checkBox(b orb.Bound, extra [4][]float64, rot int, rev, closed bool, mode string) error {
+func checkBox(b orb.Bound, extra [4][]float64, rot int, rev, closed bool, mode string, nz *noiser) error {
 	want := boxClosedForm(b)
 	tol := relBox * want
+	nz.call()
 	if a := geo.Area(b); !(math.Abs(a-want) <= tol) {
 		return fmt.Errorf("Area(%v) = %v, closed form %v (relative %g)", b, a, want, (a-want)/want)
 	}
 	verts := boxRing(b, extra)
 	r := spelling(verts, rot%len(verts), rev, closed)
-	s, a, err := ringMeasures(r, mode)
+	s, a, err := ringMeasures(r, mode, nz)
 	if err != nil {
 		return fmt.Errorf("ring %v (layout %s): %v", r, mode, err)
 	}
 	if !(math.Abs(a-want) <= tol) {
 		return fmt.Errorf("Area(ring %v) = %v, closed form of the box %v (relative %g)", r, a, want, (a-want)/want)
 	}
-	pa, err := measured(orb.Polygon{r}, mode, "Area(polygon)", geo.Area)
+	pa, err := measured(orb.Polygon{r}, mode, "Area(polygon)", geo.Area, nz)
 	if err != nil {
 		return fmt.Errorf("polygon of ring %v (layout %s): %v", r, mode, err)
 	}
@@ -341,7 +357,7 @@ func checkBox(b orb.Bound, extra [4][]float64, rot int, rev, closed bool, mode s
 	}
 	// a polygon of the box and the same box again as a "hole", and the two as a multi-polygon:
 	// closed forms 0 and 2x; in the shared layout the two rings are adjacent windows of one buffer.
-	twice, err := measured(orb.MultiPolygon{{r}, {r}}, mode, "Area(multi-polygon)", geo.Area)
+	twice, err := measured(orb.MultiPolygon{{r}, {r}}, mode, "Area(multi-polygon)", geo.Area, nz)
 	if err != nil {
 		return fmt.Errorf("multi-polygon of twice the ring %v (layout %s): %v", r, mode, err)
 	}
@@ -374,7 +390,7 @@ func sumAbsDLon(verts []orb.Point) float64 {
 func ringTol(verts []orb.Point) float64 { return relRing*R*R*sumAbsDLon(verts) + 1e-9 }
 
 // checkRing: every rotation x reversal x closed/unclosed spelling of the vertex list.
-func checkRing(verts []orb.Point, mode string) error {
+func checkRing(verts []orb.Point, mode string, nz *noiser) error {
 	n := len(verts)
 	tol := ringTol(verts)
 	base := spelling(verts, 0, false, false)
@@ -386,7 +402,7 @@ func checkRing(verts []orb.Point, mode string) error {
 		for k := 0; k < 4; k++ {
 			rev, closed := k&1 == 1, k&2 == 2
 			r := spelling(verts, rot, rev, closed)
-			s, a, err := ringMeasures(r, mode)
+			s, a, err := ringMeasures(r, mode, nz)
 			if err != nil {
 				return fmt.Errorf("spelling rot=%d rev=%v closed=%v %v (layout %s): %v", rot, rev, closed, r, mode, err)
 			}
@@ -492,10 +508,10 @@ func segments(g orb.Geometry, f func(a, b orb.Point)) {
 
 // checkGeom: g is the reference (plain deep copy, never handed to a measure); every
 // measure gets its own copy of g in the given memory layout.
-func checkGeom(g orb.Geometry, mode string) error {
+func checkGeom(g orb.Geometry, mode string, nz *noiser) error {
 	g = gen.DeepCopy(g)
 	want, tol := modelArea(g)
-	a, err := measured(g, mode, "Area", geo.Area)
+	a, err := measured(g, mode, "Area", geo.Area, nz)
 	if err != nil {
 		return fmt.Errorf("layout %s: %v", mode, err)
 	}
@@ -512,7 +528,7 @@ func checkGeom(g orb.Geometry, mode string) error {
 		f    func(orb.Geometry) float64
 		want float64
 	}{{"Length", geo.Length, se}, {"LengthHaversine", geo.LengthHaversine, sh}, {"LengthHaversign", geo.LengthHaversign, sh}} {
-		l, err := measured(g, mode, m.name, m.f)
+		l, err := measured(g, mode, m.name, m.f, nz)
 		if err != nil {
 			return fmt.Errorf("layout %s: %v", mode, err)
 		}
